@@ -586,6 +586,16 @@ def cli_stage(chk, exe, pid):
         why = "image written by the hexasm executable differs from the in-process image at byte %d (lengths %d / %d)" % (k, len(cli_bin), len(ref_bin))
     elif rc2 != 0 or o2 != ref_lst:
         why = "`hexasm --instrs` output differs from the in-process listing"
+    else:
+        # the same image written to a destination that cannot seek (a pipe)
+        import subprocess
+        try:
+            r = subprocess.run("%s p.S -o /dev/stdout | cat" % hexasm, shell=True, cwd=d, capture_output=True, timeout=120)
+            if r.stdout != ref_bin:
+                k = next((i for i in range(min(len(r.stdout), len(ref_bin))) if r.stdout[i] != ref_bin[i]), min(len(r.stdout), len(ref_bin)))
+                why = "image written by the hexasm executable into a pipe (-o /dev/stdout | cat) differs from the in-process image at byte %d (lengths %d / %d)" % (k, len(r.stdout), len(ref_bin))
+        except subprocess.TimeoutExpired:
+            why = "hexasm -o /dev/stdout | cat does not finish"
     chk.native.append({"stage": "hexasm executable vs the in-process pipeline on one source file: image (-o) byte-identical, --instrs listing identical", "ok": not why, "why": why})
     if why and not chk.violations:
         f = os.path.join(hv.OUTROOT, "replay", "%s-native-cli.S" % pid)
